@@ -10,7 +10,7 @@ from .. import engine, refmodel as rm
 PID = 'C19'
 MOD = 'mc.props.c19'
 
-SHAPES = [(4, 4), (5, 5), (4, 6), (6, 4), (5, 7), (7, 5)]
+SHAPES = [(4, 4), (5, 5), (4, 6), (6, 4), (5, 7), (7, 5), (13, 4)]      # 13: a length FFT libraries like to pad
 EXTENTS = [0, 0.25, 0.5, 1, 2.5]
 ANGLES = [0, 30, 45, 90, 135, 200]
 
@@ -78,6 +78,11 @@ def call(kind, img, extent, angle=None, pixelscale=1, oversample=1):
 def payloads(shape, seed, impulses):
     out = [('dense', rm.generic_real(shape, seed, tag=1, lo=0.5, hi=3.0)),
            ('smooth', 1.0 + np.add.outer(np.cos(2 * np.pi * np.arange(shape[0]) / shape[0]), 0.5 * np.sin(2 * np.pi * np.arange(shape[1]) / shape[1])) / 4)]
+    counts = np.floor(rm.generic_real(shape, seed, tag=3, lo=20, hi=90))
+    counts[0, :] += 40                                  # signal on the border: a non-circular convolution would lose it
+    out.append(('counts-int64', counts.astype(np.int64)))
+    out.append(('counts-uint16', counts.astype(np.uint16)))
+    out.append(('float32', counts.astype(np.float32) / 16))
     if impulses:
         for k in range(shape[0] * shape[1]):
             e = np.zeros(shape[0] * shape[1]); e[k] = 1
@@ -93,6 +98,7 @@ def chk(case, acc, seed):
     for name, img in payloads(shape, seed, impulses=case.get('impulses', False)):
         sub = dict(case, payload=name)
         img0 = img.copy()
+        img64 = np.asarray(img, dtype=float)
         try:
             out = np.asarray(call(kind, img, extent, angle))
         except Exception as e:
@@ -106,23 +112,23 @@ def chk(case, acc, seed):
             acc.violation(f'{kind}:negative', sub, f'min {out.min()}')
         if not np.array_equal(img, img0):
             acc.violation(f'{kind}:input-mutated', sub, 'input image modified')
-        scale = 1 + np.max(np.abs(img))
+        scale = (1 + np.max(np.abs(img64))) * (1e5 if img.dtype == np.float32 else 1)
         if extent == 0:
-            if rm.maxerr(out, img) > 1e-12 * scale:
+            if rm.maxerr(np.asarray(out, float), img64) > 1e-12 * scale:
                 acc.violation(f'{kind}:zero-extent-not-identity', sub, f'max diff {rm.maxerr(out, img):.3e}')
-        ref, bound = ref_conv(img, H)
+        ref, bound = ref_conv(img64, H)
         tol = bound + 1e-11 * scale
         if np.min(ref.real) >= tol:          # exact convolution non-negative: abs() folds nothing
             acc.cls('conv-compared')
             if rm.maxerr(out, ref.real) > 2 * tol:
                 acc.violation(f'{kind}:transfer-function:{sq}', sub,
                               f'output differs from the circular convolution with the analytic transfer function by {rm.maxerr(out, ref.real):.3e} (Nyquist bound {bound:.3e})')
-            if abs(out.sum() - img.sum()) > 2 * tol * img.size:
-                acc.violation(f'{kind}:total', sub, f'total {out.sum()} != {img.sum()}')
-        if kind in ('jitter', 'smear') and abs(out.sum() - img.sum()) > 1e-10 * img.sum():
+            if abs(out.sum() - img64.sum()) > 2 * tol * img.size:
+                acc.violation(f'{kind}:total', sub, f'total {out.sum()} != {img64.sum()}')
+        if kind in ('jitter', 'smear') and abs(out.sum() - img64.sum()) > (1e-6 if img.dtype == np.float32 else 1e-10) * img64.sum():
             acc.violation(f'{kind}:total-nonnegative-input', sub, f'total {out.sum()} != {img.sum()}')
         # commutes with every circular translation
-        if name in ('dense', 'e0'):
+        if name in ('dense', 'e0', 'counts-int64'):
             for dr in range(shape[0]):
                 for dc in range(shape[1]):
                     o2 = np.asarray(call(kind, np.roll(img, (dr, dc), (0, 1)), extent, angle))
